@@ -1,19 +1,12 @@
-//! C08.b / C08.c (and the pseudo-instruction clause of C13): decoding and
-//! pseudo-expansion.
-//!
-//! Concrete assembly text is lexed and parsed by the REAL `Lexer` and
-//! `ParserNode::try_from`; the resulting node(s) are read back through their
-//! public fields into an ISA-level instruction, which must have the same
-//! destination and the same effect as the manual's meaning of the text for
-//! ALL register-file contents (symbolic): result value, branch decision,
-//! jump target, effective address, stored value, CSR operand.
+//! C08.b / C08.c: reading a parsed node back through its public fields into an
+//! ISA-level instruction (`RInst`).  Used by the native `decode` binary of
+//! engine E3 (Kani cannot execute `ParserNode::try_from` on text inside its
+//! caps: the Strings the lexer builds by `push` lose constant propagation after
+//! the first realloc and symex then explores every arm of the mnemonic match).
 
-use crate::ob_props::draw_regs;
-use crate::rvref::{self, Alu, Cond, CsrOp, RInst, Width};
-use crate::src::Src;
+use crate::rvref::{Alu, Cond, CsrOp, RInst, Width};
 use riscv_analysis::parser::{
-    ArithType, BranchType, CsrIType, CsrType, IArithType, LexError, Lexer, LoadType, ParserNode,
-    StoreType,
+    ArithType, BranchType, CsrIType, CsrType, IArithType, LoadType, ParserNode, StoreType,
 };
 
 pub const LA_ADDR: u32 = 0x1001_0040;
@@ -147,7 +140,7 @@ pub fn node_meaning(n: &ParserNode, la_addr: u32) -> Option<RInst> {
     })
 }
 
-fn node_label(n: &ParserNode) -> Option<&str> {
+pub fn node_label(n: &ParserNode) -> Option<&str> {
     match n {
         ParserNode::JumpLink(x) => Some(x.name.get().as_str()),
         ParserNode::Branch(x) => Some(x.name.get().as_str()),
@@ -156,71 +149,3 @@ fn node_label(n: &ParserNode) -> Option<&str> {
     }
 }
 
-/// Static (non-register) part of an instruction's identity.
-fn same_static(a: &RInst, b: &RInst) -> bool {
-    match (a, b) {
-        (RInst::Load { width: w1, signed: s1, .. }, RInst::Load { width: w2, signed: s2, .. }) => w1 == w2 && s1 == s2,
-        (RInst::Load { .. }, _) | (_, RInst::Load { .. }) => false,
-        (RInst::Store { width: w1, .. }, RInst::Store { width: w2, .. }) => w1 == w2,
-        (RInst::Store { .. }, _) | (_, RInst::Store { .. }) => false,
-        (RInst::Csr { op: o1, csr: c1, .. }, RInst::Csr { op: o2, csr: c2, .. }) => o1 == o2 && c1 == c2,
-        (RInst::CsrImm { op: o1, csr: c1, .. }, RInst::CsrImm { op: o2, csr: c2, .. }) => o1 == o2 && c1 == c2,
-        (RInst::Csr { .. }, _) | (_, RInst::Csr { .. }) | (RInst::CsrImm { .. }, _) | (_, RInst::CsrImm { .. }) => false,
-        (RInst::System, RInst::System) => true,
-        (RInst::System, _) | (_, RInst::System) => false,
-        _ => true,
-    }
-}
-
-pub fn text_case<S: Src>(s: &mut S, text: &str, expected: &[RInst], label: Option<&str>) {
-    let mut lx = Lexer::new(text, uuid::Uuid::nil()).peekable();
-    let parsed = ParserNode::try_from(&mut lx);
-    let mut nodes: Vec<ParserNode> = Vec::with_capacity(2);
-    match parsed {
-        Ok(n) => nodes.push(n),
-        Err(LexError::NeedTwoNodes(a, b)) => {
-            nodes.push(*a);
-            nodes.push(*b);
-        }
-        Err(e) => {
-            assert!(false, "[C08] operand form of the catalogue was rejected by the parser");
-            core::mem::forget(e);
-        }
-    }
-    assert!(nodes.len() == expected.len(), "[C08] text expands to a different number of instructions");
-    let mut regs = draw_regs(s);
-    let loaded = s.u32();
-    let pc = s.u32();
-    let mut saw_label = label.is_none();
-    let mut i = 0;
-    while i < nodes.len() && i < expected.len() {
-        let exp = expected[i];
-        let got = node_meaning(&nodes[i], LA_ADDR);
-        assert!(got.is_some(), "[C08] parsed node has no RV32IM meaning");
-        if let Some(got) = got {
-            assert!(same_static(&got, &exp), "[C08] instruction class / width / CSR differs from the manual's meaning of the text");
-            assert!(rvref::arch_writes(&got) == rvref::arch_writes(&exp), "[C08] destination register differs from the manual's meaning of the text");
-            assert!(
-                rvref::effect(&got, &regs, pc) == rvref::effect(&exp, &regs, pc),
-                "[C08,C13] effect differs from the manual's meaning of the text for some register contents"
-            );
-        }
-        if let Some(l) = node_label(&nodes[i]) {
-            assert!(Some(l) == label, "[C08] target label differs from the text");
-            saw_label = true;
-        }
-        // advance the (shared) machine state by the expected instruction
-        let eff = rvref::effect(&exp, &regs, pc);
-        if let Some(rd) = rvref::arch_writes(&exp) {
-            let v = match exp {
-                RInst::Load { .. } => loaded,
-                _ => eff.rd_value.unwrap_or(loaded),
-            };
-            regs.set(rd, v);
-        }
-        i += 1;
-    }
-    assert!(saw_label, "[C08] label operand of the text is missing from the node");
-    crate::witness!(true, "W:end");
-    core::mem::forget((nodes, lx));
-}
